@@ -32,10 +32,17 @@ type c14Case struct {
 	Periods    int    `json:"periods"`   // live: heartbeat periods to idle through
 	LatencyMs  int    `json:"latency_ms"`
 	TrafficMs  int    `json:"traffic_ms"` // live: an application message every TrafficMs (0 = fully idle)
+	// forced schedule (upgrade only): the goroutine that swaps the transports on the server / on the client is held at the yield point just before
+	// the swap for that much virtual time, so that a heartbeat falls due while the upgrade is half done (0 = no hold)
+	SwapHoldMs       int `json:"swap_hold_ms"`
+	ClientSwapHoldMs int `json:"client_swap_hold_ms"`
 }
 
 func (c c14Case) class() string {
 	if c.Mode == "live" {
+		if c.SwapHoldMs > 0 || c.ClientSwapHoldMs > 0 {
+			return "live," + c.Transport + ",swap-held"
+		}
 		return "live," + c.Transport
 	}
 	return "dead," + c.Transport + "," + c.Direction
@@ -79,7 +86,11 @@ func evalC14(c c14Case) (f *Failure, nontrivial bool) {
 					}
 					mu.Unlock()
 				},
-				OnClose: func(r eio.Reason, err error) { mu.Lock(); srvClose = append(srvClose, c14Close{r, time.Now()}); mu.Unlock() },
+				OnClose: func(r eio.Reason, err error) {
+					mu.Lock()
+					srvClose = append(srvClose, c14Close{r, time.Now()})
+					mu.Unlock()
+				},
 			}
 		}, &eio.ServerConfig{PingInterval: I, PingTimeout: T})
 		if err := server.Run(); err != nil {
@@ -103,7 +114,11 @@ func evalC14(c c14Case) (f *Failure, nontrivial bool) {
 				}
 				mu.Unlock()
 			},
-			OnClose: func(r eio.Reason, err error) { mu.Lock(); cliClose = append(cliClose, c14Close{r, time.Now()}); mu.Unlock() },
+			OnClose: func(r eio.Reason, err error) {
+				mu.Lock()
+				cliClose = append(cliClose, c14Close{r, time.Now()})
+				mu.Unlock()
+			},
 		}, &eio.ClientConfig{Transports: c01Transports(c.Transport), HTTPTransport: tr, UpgradeDone: func(string) { mu.Lock(); upgraded = true; mu.Unlock() },
 			WebSocketDialOptions: &websocket.DialOptions{HTTPClient: &http.Client{Transport: tr}}})
 		if err != nil {
@@ -251,14 +266,27 @@ func evalC14(c c14Case) (f *Failure, nontrivial bool) {
 			}
 		}
 	}
-	msg := inBubble(curT, body)
+	var held sync.Map
+	var msg string
+	withHooks(hookSet{point: func(site string) {
+		hold := 0
+		switch site {
+		case "eio.serverSocket.upgradeTo:before-swap":
+			hold = c.SwapHoldMs
+		case "eio.clientSocket.finishUpgradeTo:before-swap":
+			hold = c.ClientSwapHoldMs
+		}
+		if _, again := held.LoadOrStore(site, true); hold > 0 && !again {
+			time.Sleep(time.Duration(hold) * time.Millisecond)
+		}
+	}}, func() { msg = inBubble(curT, body) })
 	if res == nil && msg != "" && !isBubbleDeadlock(msg) {
 		res = fail("bubble-panic", "synctest: "+msg)
 	}
 	if c.Mode == "dead" {
 		nontrivial = c.Direction != "both" || c.Transport == "upgrade" || c.AtMs%c.IntervalMs < 6 || c.AtMs%c.IntervalMs > c.IntervalMs-6
 	} else {
-		nontrivial = c.LatencyMs > 0 || c.Periods >= 60
+		nontrivial = c.LatencyMs > 0 || c.Periods >= 60 || c.SwapHoldMs > 0 || c.ClientSwapHoldMs > 0
 	}
 	return res, nontrivial
 }
@@ -282,6 +310,18 @@ func genC14Case(t *rapid.T) c14Case {
 			c.LatencyMs = rapid.SampledFrom([]int{0, 0, 1, 50, c.TimeoutMs/div - 10, c.TimeoutMs/div - 2}).Draw(t, "latency")
 		}
 		c.TrafficMs = rapid.SampledFrom([]int{0, 0, 333, 1700, c.IntervalMs, c.IntervalMs + 1}).Draw(t, "traffic")
+		if c.Transport == "upgrade" {
+			// the swap held across the instant of the first ping (both sides of it), or for a short while
+			holds := []int{0, 0, 20, c.IntervalMs - 2, c.IntervalMs + 2, c.IntervalMs + 50, c.IntervalMs + c.TimeoutMs/2}
+			c.SwapHoldMs = rapid.SampledFrom(holds).Draw(t, "swapHold")
+			c.ClientSwapHoldMs = rapid.SampledFrom(holds).Draw(t, "clientSwapHold")
+			// The client stops polling when the probe is answered and the server swaps when it has the UPGRADE packet, which the client sends at
+			// the end of its own hold: a ping that falls due meanwhile cannot travel before both holds are over. Together they stay below
+			// pingInterval + pingTimeout/2, so that its pong is still in time.
+			if c.SwapHoldMs+c.ClientSwapHoldMs > c.IntervalMs+c.TimeoutMs/2 {
+				c.ClientSwapHoldMs = 0
+			}
+		}
 	} else {
 		c.Mode = "dead"
 		c.Direction = rapid.SampledFrom([]string{"both", "both", "c2s", "s2c"}).Draw(t, "direction")
@@ -302,7 +342,8 @@ func TestC14_Heartbeat(t *testing.T) {
 		"silently black-holed at a drawn instant (1 ms resolution over two periods, biased to within 3 ms of a ping) in both directions or one; oracle: each side closes exactly once, no later than "+
 		"(last instant memnet delivered bytes from the peer to that side) + pingInterval + pingTimeout + 500 ms (+5 s on WebSocket for the WebSocket library's close wait), a ping-timeout reason is reported. "+
 		"Live peers: 30..200 idle periods with link latency up to pingTimeout/2 and optional application traffic out of phase with the pings; oracle: no OnClose at all, pings keep coming, messages still flow. "+
-		"non-trivial = one-directional loss, or during the upgrade, or within 5 ms of a ping; live: latency > 0 or >= 60 periods")
+		"During an upgrade the goroutine that swaps the transports (server and client side, yield point before the swap) is optionally held across the instant of the first ping. "+
+		"non-trivial = one-directional loss, or during the upgrade, or within 5 ms of a ping; live: latency > 0, >= 60 periods or a held swap")
 	rapidGuard(t, "C14", c14Check)
 	runRapid(t, c14Check, tierN(6000, 80000), func(t *rapid.T) {
 		c := genC14Case(t)
